@@ -65,7 +65,10 @@ func c09Gen(seed uint64, run int, tier string) *Case {
 		var ops []Op
 		for k := r.Range(2, 8); k > 0; k-- {
 			off := int64(len(ops)*4096 + r.Intn(100))
-			switch r.Intn(12) {
+			switch r.Intn(14) {
+			case 12, 13:
+				// the non-blocking interface with the caller's own completion channel
+				ops = append(ops, Op{K: "rpcnb", A: []int64{int64(len(ops)), int64(r.Intn(3))}})
 			case 10, 11:
 				ops = append(ops, Op{K: "helper", A: []int64{int64(r.Intn(6))}})
 			case 0, 1, 2, 3:
@@ -81,7 +84,7 @@ func c09Gen(seed uint64, run int, tier string) *Case {
 			case 8:
 				ops = append(ops, Op{K: "readwrong", A: []int64{off | int64(markWrong), 10}})
 			case 9:
-				ops = append(ops, Op{K: "tagreads", A: []int64{int64(len(ops)), int64(r.Range(2, 6)), int64(r.Pick(1, 8, 30)), int64(r.Intn(3))}})
+				ops = append(ops, Op{K: "tagreads", A: []int64{int64(len(ops)), int64(r.Range(2, 6)), int64(r.Pick(1, 8, 30)), int64(r.Intn(3)), int64(r.Intn(4))}})
 			}
 		}
 		c.Ops = append(c.Ops, Op{K: "caller", Sub: ops})
@@ -117,6 +120,20 @@ func c09Exec(x *Ctx) {
 			return
 		}
 		distinctTags[m.Tag] = true
+		if m.Type == Tread && m.Offset >= 1<<40 && m.Offset&(markErr|markWrong) != 0 {
+			// a pipelined (Tag interface) or non-blocking read that the server refuses / answers with the wrong type
+			p.SharedTags[m.Tag] = true
+			if m.Offset&markErr != 0 {
+				txt, num := errFor(m.Offset)
+				rep = &Msg{Type: Rerror, Tag: m.Tag, Ename: txt, Errno: num}
+				x.Fault("rerror-reply")
+			} else {
+				rep = &Msg{Type: Rwrite, Tag: m.Tag, Count: 3}
+				x.Fault("wrong-type-reply")
+			}
+			p.Send(r, Encode(rep, p.Dotu))
+			return
+		}
 		if m.Type == Tread && m.Offset >= 1<<40 {
 			// pipelined Tag interface: deliberately shared tag, answered in arrival order
 			p.SharedTags[m.Tag] = true
